@@ -122,3 +122,27 @@ Theorem C05_valid_example :
   AR.validate_batch gen_tables (o_batch ex_b' (d_build offset_table ex_b ex_des ex_p2)) = AR.ROk /\
   AR.validate_file gen_tables (o_file ex_f' (d_build offset_table ex_b ex_des ex_p2 :: nil)) = AR.ROk.
 Proof. exact (conj ex_fresh_valid (proj2 ex_file_valid)). Qed.
+
+(* END TO END with C03, phase 8: under the hypotheses of C05_file_create_arith_valid_partial the
+   file control that File.Create tabulated equals sums over the ENTRIES of the created file:
+   count = ΣΣ (1 + addenda), debit / credit = Σ of the batch totals by direction, hash =
+   (Σ_batches ((Σ atoi (aba8 RDFI)) rem 10^10)) rem 10^10 — composition with C03_file_arith and
+   C03_batch_arith_general (Props/C03General.v).  PARTIAL exactly as the theorem it composes. *)
+Theorem C05_file_create_entries_partial : forall f f' dess,
+  file_create f = Ret true f' -> length dess = length (f_batches f) ->
+  Forall (fun x => AR.validate_batch gen_tables x = AR.ROk) (o_batches (f_batches f) dess) ->
+  forallb (fun b => b_num b <=? 1) (f_batches f) = true ->
+  fctl_fits gen_tables (o_fctl (f_ctl f')) ->
+  AR.is_adv_file (o_file f' dess) = false ->
+  let bs := o_batches (f_batches f') dess in
+  AR.fc_count (AR.fl_ctl (o_file f' dess)) = AR.sumz (fun b => ACH.Model.ArithSpec.spec_count (AR.bt_entries b)) bs /\
+  AR.fc_debit (AR.fl_ctl (o_file f' dess)) = AR.sumz (fun b => ACH.Model.ArithGen.gen_debit (AR.bt_kind b) (AR.bt_entries b)) bs /\
+  AR.fc_credit (AR.fl_ctl (o_file f' dess)) = AR.sumz (fun b => ACH.Model.ArithGen.gen_credit (AR.bt_kind b) (AR.bt_entries b)) bs /\
+  AR.fc_hash (AR.fl_ctl (o_file f' dess)) = Z.rem (AR.sumz (fun b => ACH.Model.ArithGen.gen_hash (AR.bt_entries b)) bs) (10 ^ 10).
+Proof. exact c05_file_create_entries. Qed.
+Print Assumptions C05_file_create_entries_partial.
+
+Theorem C05_file_create_entries_example :
+  AR.is_adv_file (o_file ex_f' (d_build offset_table ex_b ex_des ex_p2 :: nil)) = false /\
+  o_batches (f_batches ex_f') (d_build offset_table ex_b ex_des ex_p2 :: nil) <> nil.
+Proof. exact ex_file_entries. Qed.
